@@ -15,7 +15,6 @@ import (
 
 	"golang.org/x/tools/go/packages"
 	"golang.org/x/tools/go/ssa"
-	"golang.org/x/tools/go/ssa/ssautil"
 )
 
 const (
@@ -108,12 +107,41 @@ func Load() (*Program, error) {
 	if len(roots) < 150 {
 		return nil, fmt.Errorf("only %d osmosis packages loaded (expected >= 150)", len(roots))
 	}
-	prog, spkgs := ssautil.Packages(roots, ssa.InstantiateGenerics)
+	// SSA packages are created by hand rather than through ssautil.Packages: that helper skips every package
+	// marked IllTyped, which includes all packages that merely depend (transitively, through a blank import) on
+	// the emptied statik package. Their own syntax and type information are complete (any other error was
+	// rejected above), so building them is safe.
+	prog := ssa.NewProgram(roots[0].Fset, ssa.InstantiateGenerics)
+	isRoot := map[*packages.Package]bool{}
+	for _, p := range roots {
+		isRoot[p] = true
+	}
+	created := map[*packages.Package]*ssa.Package{}
+	packages.Visit(pkgs, nil, func(p *packages.Package) {
+		if p.PkgPath == statikPkg {
+			// emptied in this sandbox: an empty types-only package satisfies the blank import
+			tp := p.Types
+			if tp == nil {
+				tp = types.NewPackage(statikPkg, "statik")
+			}
+			tp.MarkComplete()
+			created[p] = prog.CreatePackage(tp, nil, nil, true)
+			return
+		}
+		if p.Types == nil {
+			return
+		}
+		if isRoot[p] && p.TypesInfo != nil && len(p.Syntax) > 0 {
+			created[p] = prog.CreatePackage(p.Types, p.Syntax, p.TypesInfo, true)
+		} else {
+			created[p] = prog.CreatePackage(p.Types, nil, nil, true)
+		}
+	})
 	P := &Program{RepoDir: dir, Fset: prog.Fset, Pkgs: roots, ByPath: map[string]*packages.Package{}, SSA: prog, SSAPkgs: map[string]*ssa.Package{}}
-	for i, p := range roots {
+	for _, p := range roots {
 		P.ByPath[p.PkgPath] = p
-		if spkgs[i] != nil {
-			P.SSAPkgs[p.PkgPath] = spkgs[i]
+		if sp := created[p]; sp != nil {
+			P.SSAPkgs[p.PkgPath] = sp
 		}
 	}
 	dbg("ssa create", t0)
@@ -235,6 +263,22 @@ func (p *Program) SSAPkg(rel string) *ssa.Package {
 
 // Func resolves "rel/pkg.Func" or "rel/pkg.Type.Method" to its SSA function (nil if absent).
 func (p *Program) Func(spec string) *ssa.Function {
+	// closures: "pkg.Func$2" or "pkg.T.M$1$1"
+	if k := strings.Index(spec, "$"); k >= 0 {
+		fn := p.Func(spec[:k])
+		for _, part := range strings.Split(spec[k+1:], "$") {
+			if fn == nil {
+				return nil
+			}
+			n := 0
+			fmt.Sscanf(part, "%d", &n)
+			if n < 1 || n > len(fn.AnonFuncs) {
+				return nil
+			}
+			fn = fn.AnonFuncs[n-1]
+		}
+		return fn
+	}
 	i := strings.LastIndex(spec, "/")
 	j := strings.Index(spec[i+1:], ".")
 	if j < 0 {
